@@ -13,6 +13,9 @@
 (* missing / extra state change in the code, makes the trace unexplainable *)
 (* and it is rejected at that event.                                       *)
 (*                                                                         *)
+(* K4 (C04): a step charged beyond the configured budget fails, so the     *)
+(* only events that may follow it are the unwinding ones (nest-, pop).     *)
+(*                                                                         *)
 (* Silent steps: IterDone (the step charged for a tail iteration follows    *)
 (* the `iter` event; after it the mark is consumed) and IterAbort (the     *)
 (* iteration failed a tail / logical-height limit: the mark is dropped     *)
@@ -33,8 +36,9 @@ VARIABLES frames,   \* Seq([fid, kind, term, tro, iters])
           pkgs,     \* stack of packages saved by call()'s swap
           bpk,      \* stack of current-package names at each load's begin
           cfg,      \* limits of the runtime under trace (from cfg events)
+          failed,   \* the last step was charged beyond the budget: the evaluator may only unwind
           l         \* position in Trace
-vars == <<frames, nest, depth, steps, conds, mark, pkgs, bpk, cfg, l>>
+vars == <<frames, nest, depth, steps, conds, mark, pkgs, bpk, cfg, failed, l>>
 
 NoMark == [rem |-> -1, fid |-> ""]
 Top(s) == s[Len(s)]
@@ -51,7 +55,7 @@ Chain(fs, i, fid) ==
 TerminalFID(fs, fid) == Chain(fs, Len(fs), fid)
 
 Init == /\ frames = <<>> /\ nest = 0 /\ depth = 0 /\ steps = 0 /\ conds = 0
-        /\ mark = NoMark /\ pkgs = <<>> /\ bpk = <<>> /\ cfg = NoCfg /\ l = 1
+        /\ mark = NoMark /\ pkgs = <<>> /\ bpk = <<>> /\ cfg = NoCfg /\ failed = FALSE /\ l = 1
         /\ TLCSet(1, 1)
 
 E == Trace[l]
@@ -61,68 +65,69 @@ Quiet == ~Pending          \* while a mark travels up, the evaluator only unwind
 AtRest == frames = <<>> /\ nest = 0 /\ depth = 0 /\ conds = 0 /\ ~Pending /\ pkgs = <<>> /\ bpk = <<>>
 
 \* ---- a new runtime starts (previous one must have been left clean: C05) ----
-Reset == /\ Is("reset") /\ AtRest
+Reset == /\ ~failed /\ UNCHANGED failed /\ Is("reset") /\ AtRest
          /\ steps' = 0 /\ cfg' = NoCfg
          /\ UNCHANGED <<frames, nest, depth, conds, mark, pkgs, bpk>>
-Cfg == /\ Is("cfg") /\ AtRest
+Cfg == /\ ~failed /\ UNCHANGED failed /\ Is("cfg") /\ AtRest
        /\ cfg' = [cfg EXCEPT ![E.x] = E.a]
        /\ UNCHANGED <<frames, nest, depth, steps, conds, mark, pkgs, bpk>>
 
 \* ---- entry points ----
-Begin == /\ Is("begin") /\ Quiet /\ depth' = depth + 1 /\ E.a = depth'
+Begin == /\ ~failed /\ UNCHANGED failed /\ Is("begin") /\ Quiet /\ depth' = depth + 1 /\ E.a = depth'
          /\ steps' = IF depth' = 1 THEN 0 ELSE steps          \* budget refilled only at the outermost entry (C04)
          /\ bpk' = Append(bpk, E.x)
          /\ UNCHANGED <<frames, nest, conds, mark, pkgs, cfg>>
-End == /\ Is("end") /\ depth > 0 /\ depth' = depth - 1 /\ E.a = depth'
+End == /\ ~failed /\ UNCHANGED failed /\ Is("end") /\ depth > 0 /\ depth' = depth - 1 /\ E.a = depth'
        /\ bpk' = Pop(bpk)
        \* K10 CleanAtRest (C05): nothing of the evaluation survives its outermost exit
        /\ (depth' = 0 => (frames = <<>> /\ nest = 0 /\ conds = 0 /\ ~Pending /\ pkgs = <<>>))
        /\ UNCHANGED <<frames, nest, steps, conds, mark, pkgs, cfg>>
 
 \* ---- evaluator nesting (K2) ----
-NestUp == /\ Is("nest+") /\ Quiet /\ nest' = nest + 1 /\ E.a = nest'
+NestUp == /\ ~failed /\ UNCHANGED failed /\ Is("nest+") /\ Quiet /\ nest' = nest + 1 /\ E.a = nest'
           /\ (cfg.maxnest > 0 => nest' <= cfg.maxnest + 1)
           /\ UNCHANGED <<frames, depth, steps, conds, mark, pkgs, bpk, cfg>>
-NestDown == /\ Is("nest-") /\ nest > 0 /\ nest' = nest - 1 /\ E.a = nest'
+NestDown == /\ failed' = FALSE /\ Is("nest-") /\ nest > 0 /\ nest' = nest - 1 /\ E.a = nest'
             /\ UNCHANGED <<frames, depth, steps, conds, mark, pkgs, bpk, cfg>>
 
 \* ---- step charge (K3): +1 exactly; with a mark in hand only the tail-iteration charge may happen ----
-Step == /\ Is("step") /\ steps' = steps + 1 /\ E.a = steps' /\ depth > 0
+Step == /\ ~failed /\ failed' = (cfg.maxsteps > 0 /\ steps + 1 > cfg.maxsteps)
+        /\ Is("step") /\ steps' = steps + 1 /\ E.a = steps' /\ depth > 0
         /\ (Pending => (mark.rem = 0 /\ Trace[l-1].ev = "iter"))
         /\ UNCHANGED <<frames, nest, depth, conds, mark, pkgs, bpk, cfg>>
 
 \* ---- frames (K1, K11) ----
-Push == /\ Is("push") /\ Quiet /\ E.h = Len(frames) + 1
+Push == /\ ~failed /\ UNCHANGED failed /\ Is("push") /\ Quiet /\ E.h = Len(frames) + 1
         /\ (cfg.maxphys > 0 => Len(frames) < cfg.maxphys)
         /\ frames' = Append(frames, [fid |-> E.x, kind |-> E.y, term |-> FALSE, tro |-> FALSE, iters |-> 0])
         /\ UNCHANGED <<nest, depth, steps, conds, mark, pkgs, bpk, cfg>>
-PopF == /\ Is("pop") /\ Len(frames) > 0 /\ Top(frames).fid = E.x /\ E.h = Len(frames) - 1
+PopF == /\ failed' = FALSE /\ Is("pop") /\ Len(frames) > 0 /\ Top(frames).fid = E.x /\ E.h = Len(frames) - 1
         /\ frames' = Pop(frames)
         /\ UNCHANGED <<nest, depth, steps, conds, mark, pkgs, bpk, cfg>>
 
 \* ---- Terminal flag writers ----
 \* cells: evalSExprCells clears the flag while head/arguments are evaluated and restores it (deferred);
 \* body / builtin / funcall: the frame enters its terminal state (never with a mark in hand).
-Term == /\ Is("term") /\ Len(frames) > 0
+Term == /\ ~failed /\ UNCHANGED failed /\ Is("term") /\ Len(frames) > 0
         /\ IF E.y = "cells" THEN Top(frames).term = (E.a = 0)
                             ELSE (E.a = 1 /\ Quiet)
         /\ frames' = SetTop(frames, [Top(frames) EXCEPT !.term = (E.a = 1)])
         /\ UNCHANGED <<nest, depth, steps, conds, mark, pkgs, bpk, cfg>>
-Tro == /\ Is("tro") /\ Quiet /\ Len(frames) > 0
+Tro == /\ ~failed /\ UNCHANGED failed /\ Is("tro") /\ Quiet /\ Len(frames) > 0
        /\ frames' = SetTop(frames, [Top(frames) EXCEPT !.tro = TRUE])
        /\ UNCHANGED <<nest, depth, steps, conds, mark, pkgs, bpk, cfg>>
 
 \* ---- tail-recursion marks (K6, K7, K8) ----
 \* funCall found a terminal chain ending in its own fid: the frame just pushed is
 \* the callee's, the chain below it has E.a frames, none of them blocked.
-MarkEv == /\ Is("mark") /\ Quiet /\ Len(frames) > 1 /\ cfg.trooff = 0
+MarkEv == /\ ~failed /\ UNCHANGED failed /\ Is("mark") /\ Quiet /\ Len(frames) > 1 /\ cfg.trooff = 0
           /\ Top(frames).fid = E.x /\ Top(frames).kind = "fun"
           /\ TerminalFID(Pop(frames), E.x) = E.a /\ E.a > 0
           /\ mark' = [rem |-> E.a, fid |-> E.x]
           /\ UNCHANGED <<frames, nest, depth, steps, conds, pkgs, bpk, cfg>>
 \* a frame receives the mark from its tail child and counts it down; a frame
 \* that is not terminal, or is blocked, must never see one (K7/K8)
-Dec == /\ Is("dec") /\ Pending /\ mark.rem > 0 /\ E.a = mark.rem - 1
+Dec == /\ ~failed /\ UNCHANGED failed /\ Is("dec") /\ Pending /\ mark.rem > 0 /\ E.a = mark.rem - 1
        /\ Len(frames) > 0 /\ Top(frames).term /\ ~Top(frames).tro
        /\ Top(frames).kind = E.y
        /\ (E.a = 0 => (Top(frames).fid = mark.fid /\ Top(frames).kind = "fun"))
@@ -130,44 +135,44 @@ Dec == /\ Is("dec") /\ Pending /\ mark.rem > 0 /\ E.a = mark.rem - 1
        /\ UNCHANGED <<frames, nest, depth, steps, conds, pkgs, bpk, cfg>>
 \* the mark reached its target: the frame is reused for the next iteration and
 \* leaves its terminal state (E.y = "f": the flag the code holds after the reuse)
-Iter == /\ Is("iter") /\ Pending /\ mark.rem = 0 /\ Top(frames).fid = mark.fid
+Iter == /\ ~failed /\ UNCHANGED failed /\ Is("iter") /\ Pending /\ mark.rem = 0 /\ Top(frames).fid = mark.fid
         /\ E.a = Top(frames).iters + 1
         /\ E.y = "f"
         /\ frames' = SetTop(frames, [Top(frames) EXCEPT !.iters = E.a, !.term = FALSE])
         /\ UNCHANGED <<nest, depth, steps, conds, mark, pkgs, bpk, cfg>>
 \* silent: the iteration's step was charged (successfully or not); the mark is consumed
-IterDone == /\ Pending /\ mark.rem = 0 /\ l > 1 /\ l <= N + 1 /\ Trace[l-1].ev = "step"
+IterDone == /\ UNCHANGED failed /\ Pending /\ mark.rem = 0 /\ l > 1 /\ l <= N + 1 /\ Trace[l-1].ev = "step"
             /\ mark' = NoMark /\ UNCHANGED <<frames, nest, depth, steps, conds, pkgs, bpk, cfg, l>>
 \* silent: the iteration failed the tail-iteration / logical-height bound (K9): only then
 \* may a mark disappear without its step
-IterAbort == /\ Pending /\ mark.rem = 0 /\ l > 1 /\ l <= N + 1 /\ Trace[l-1].ev = "iter"
+IterAbort == /\ ~failed /\ UNCHANGED failed /\ Pending /\ mark.rem = 0 /\ l > 1 /\ l <= N + 1 /\ Trace[l-1].ev = "iter"
              /\ \/ (cfg.maxtail > 0 /\ Top(frames).iters > cfg.maxtail)
                 \/ (cfg.maxlog > 0 /\ Trace[l-1].b > cfg.maxlog)
              /\ mark' = NoMark /\ UNCHANGED <<frames, nest, depth, steps, conds, pkgs, bpk, cfg, l>>
 
 \* ---- macro re-expansion ----
-Mexp == /\ Is("mexp") /\ Quiet /\ E.a >= 1
+Mexp == /\ ~failed /\ UNCHANGED failed /\ Is("mexp") /\ Quiet /\ E.a >= 1
         /\ UNCHANGED <<frames, nest, depth, steps, conds, mark, pkgs, bpk, cfg>>
 
 \* ---- condition stack (K12) ----
-CPush == /\ Is("cpush") /\ Quiet /\ conds' = conds + 1 /\ E.a = conds'
+CPush == /\ ~failed /\ UNCHANGED failed /\ Is("cpush") /\ Quiet /\ conds' = conds + 1 /\ E.a = conds'
          /\ UNCHANGED <<frames, nest, depth, steps, mark, pkgs, bpk, cfg>>
-CPop == /\ Is("cpop") /\ conds > 0 /\ conds' = conds - 1 /\ E.a = conds'
+CPop == /\ ~failed /\ UNCHANGED failed /\ Is("cpop") /\ conds > 0 /\ conds' = conds - 1 /\ E.a = conds'
         /\ UNCHANGED <<frames, nest, depth, steps, mark, pkgs, bpk, cfg>>
 
 \* ---- package swap / restore ----
-PkgSwap == /\ Is("pkg") /\ E.a = 0 /\ Quiet
+PkgSwap == /\ ~failed /\ UNCHANGED failed /\ Is("pkg") /\ E.a = 0 /\ Quiet
            /\ pkgs' = Append(pkgs, E.x)
            /\ UNCHANGED <<frames, nest, depth, steps, conds, mark, bpk, cfg>>
-PkgRestore == /\ Is("pkg") /\ E.a = 1 /\ Len(pkgs) > 0 /\ Top(pkgs) = E.y
+PkgRestore == /\ ~failed /\ UNCHANGED failed /\ Is("pkg") /\ E.a = 1 /\ Len(pkgs) > 0 /\ Top(pkgs) = E.y
               /\ pkgs' = Pop(pkgs)
               /\ UNCHANGED <<frames, nest, depth, steps, conds, mark, bpk, cfg>>
 \* load's deferred restore: the package current when this load began
-PkgLoadRestore == /\ Is("pkg") /\ E.a = 2 /\ Len(bpk) > 0 /\ Top(bpk) = E.y
+PkgLoadRestore == /\ ~failed /\ UNCHANGED failed /\ Is("pkg") /\ E.a = 2 /\ Len(bpk) > 0 /\ Top(bpk) = E.y
                   /\ UNCHANGED <<frames, nest, depth, steps, conds, mark, pkgs, bpk, cfg>>
 
 \* ---- recovered Go panic (host builtin `boom` of the test programs) ----
-Panic == /\ Is("panic") /\ UNCHANGED <<frames, nest, depth, steps, conds, mark, pkgs, bpk, cfg>>
+Panic == /\ ~failed /\ UNCHANGED failed /\ Is("panic") /\ UNCHANGED <<frames, nest, depth, steps, conds, mark, pkgs, bpk, cfg>>
 
 Next == \/ Reset \/ Cfg \/ Begin \/ End \/ NestUp \/ NestDown \/ Step \/ Push \/ PopF \/ Term \/ Tro
         \/ MarkEv \/ Dec \/ Iter \/ IterDone \/ IterAbort \/ Mexp \/ CPush \/ CPop
